@@ -43,7 +43,7 @@ theorem C01_reach_facts (st : State) (h : Reach st) : AllCovered st.core ∧ WF 
   · intro st op _ ⟨hc, hw, hn⟩
     exact ⟨covered_step st op hw hn hc, wf_step st op hw, bankNonneg_step st op hn hw⟩
 
-/-- **C01, the module's own invariants.**  The three invariants the module registers with the
+/-- **C01, the module's own invariants.**  The three invariants the module defines for the
     crisis module (keeper/invariants.go: selling / paying / vesting pool reserve amount — modelled
     in Model/ModuleInv.lean, proved equal to the translated Go functions in Proofs/Tie/Invariants,
     and run on the real keeper after every operation by the harness) are never broken: in EVERY
